@@ -107,20 +107,21 @@ func (e *emitter) emit(v interface{}) {
 }
 
 type sessionEnv struct {
-	pt       *protoTable
-	w        *world
-	wj       *worldJ
-	ledger   *ledgerFs
-	ln       *memListener
-	reg      *registry
-	em       *emitter
-	lastFP   string
-	srvErr   chan error
-	index    int
-	viewGen  int
-	stall    bool
-	chunkNo  int
-	chunkTag map[string]byte
+	pt        *protoTable
+	w         *world
+	wj        *worldJ
+	ledger    *ledgerFs
+	ln        *memListener
+	reg       *registry
+	em        *emitter
+	lastFP    string
+	srvErr    chan error
+	index     int
+	viewGen   int
+	libPanics []string
+	stall     bool
+	chunkNo   int
+	chunkTag  map[string]byte
 
 	// concurrent mode: this env belongs to one connection
 	priv        []string // its private subtree
@@ -243,7 +244,7 @@ func (env *sessionEnv) runConcurrent(nodes []nodeJ, views []map[string]interface
 		}
 		sub.lastFP = fp
 		sub.em.emit(map[string]interface{}{"ev": "World", "name": fmt.Sprintf("%s/c%d", wj.Name, cj.ID), "aw": wj.Aw, "nodes": first,
-			"views": views, "root": wj.RootSpelling, "index": env.index, "timeoutMs": wj.ReadTimeoutMs})
+			"views": views, "root": wj.RootSpelling, "index": env.index, "timeoutMs": wj.ReadTimeoutMs, "libPanics": nonNil(env.libPanics)})
 		wg.Add(1)
 		go func(sub *sessionEnv, cj *connJ) {
 			defer wg.Done()
@@ -416,7 +417,7 @@ func runWorld(pt *protoTable, wj *worldJ, em *emitter, index int) error {
 	}
 	if wj.Schedule != "conc" {
 		em.emit(map[string]interface{}{"ev": "World", "name": wj.Name, "aw": wj.Aw, "nodes": nodes, "views": viewsOut,
-			"root": wj.RootSpelling, "index": index, "timeoutMs": wj.ReadTimeoutMs})
+			"root": wj.RootSpelling, "index": index, "timeoutMs": wj.ReadTimeoutMs, "libPanics": nonNil(env.libPanics)})
 	}
 
 	switch wj.Schedule {
@@ -544,12 +545,26 @@ func (env *sessionEnv) buildViews() []map[string]interface{} {
 	}
 	for _, v := range decl {
 		name := fmt.Sprintf("viso:%s:/%s#%d", v.Vk, strings.Join(v.P, "/"), env.viewGen)
-		ref, err := pfs.NewVirtualISO(afero.NewBasePathFs(afero.NewOsFs(), env.w.root), "/"+filepath.Join(v.P...), v.Vk == "ps3")
-		if err != nil {
+		var ref *pfs.VirtualISO
+		var data []byte
+		var err error
+		func() {
+			defer func() {
+				if p := recover(); p != nil {
+					err = fmt.Errorf("library panic: %v", p)
+					env.libPanics = append(env.libPanics, fmt.Sprint(p))
+				}
+			}()
+			ref, err = pfs.NewVirtualISO(afero.NewBasePathFs(afero.NewOsFs(), env.w.root), "/"+filepath.Join(v.P...), v.Vk == "ps3")
+			if err != nil {
+				return
+			}
+			data, err = io.ReadAll(ref)
+			ref.Close()
+		}()
+		if ref == nil {
 			continue // no such image: the spec expects the open to fail
 		}
-		data, err := io.ReadAll(ref)
-		ref.Close()
 		if err != nil {
 			// the library view cannot be read sequentially: no reference; recorded so that TLC rejects an open
 			viewsOut = append(viewsOut, map[string]interface{}{"vk": v.Vk, "p": sanitizeAll(v.P), "cid": "?unreadable:" + err.Error(), "size": pos(-1)})
